@@ -352,6 +352,13 @@ def main(argv=None):
         with open(os.path.join(VERIF, "evidence", f"{cid}.json"), "w") as f:
             json.dump(to_jsonable(ev), f, indent=1, sort_keys=True)
             f.write("\n")
+        if args.tier == "thorough":
+            # keep the last thorough run's evidence next to the (quick-tier) file that the
+            # every-change command rewrites
+            os.makedirs(os.path.join(VERIF, "evidence", "thorough"), exist_ok=True)
+            with open(os.path.join(VERIF, "evidence", "thorough", f"{cid}.json"), "w") as f:
+                json.dump(to_jsonable(ev), f, indent=1, sort_keys=True)
+                f.write("\n")
     log(f"{cid} {args.tier}: {len(results)} runs, {n_new} new violations, {n_known} known-finding "
         f"hits, {time.time() - t_start:.1f}s -> exit {exit_code}")
     return exit_code
